@@ -345,11 +345,11 @@ def check_modifiers(ctx, rep, tier):
         def mentions_ed(t):
             if not isinstance(t, dict):
                 return False
-            if t.get('k') == 'adt' and t.get('path') in (ED, 'Keyboard'):
+            if t.get('k') == 'adt' and t.get('path') in (ED, 'Keyboard', 'Modifiers'):
                 return True
             return any(mentions_ed(x) for key in ('args', 'elems') for x in (t.get(key) or [])) or any(mentions_ed(t[key]) for key in ('to', 'elem') if key in t)
         if any(mentions_ed(t) for t in f.get('inputs', [])):
-            continue    # builds a decoder FROM a decoder (Clone, a builder-style conversion): not a start state; Clone has its own rule
+            continue    # builds a decoder FROM a decoder or from a given modifier set (Clone, with_layout, from_parts): not a start state
         try:
             e5 = Engine(ctx.prog)
             for lf in e5.run(f['path']):
